@@ -446,7 +446,7 @@ def explore(module, hname, cfg, max_paths=200000, max_seconds=3600, timeout_ms=1
         except RecursionError:
             st['unsupported'] += 1
         except Exception as e:
-            rec = dict(error=repr(e)[:300], etype=type(e).__name__, tb=traceback.format_exc()[-1200:], trace_len=len(ctx.trace), in_bt=_raised_in_bt())
+            rec = dict(error=repr(e)[:300], etype=type(e).__name__, tb=traceback.format_exc()[-int(os.environ.get("VERIF_TB", "1200")):], trace_len=len(ctx.trace), in_bt=_raised_in_bt())
             # keep a model of the path: if unshimmed bt raises the same exception on it, the driver reports it as a violation
             try:
                 import z3
